@@ -96,6 +96,7 @@ def run(ctx, rep):
     rep.floor('C19.parser', 'cast/panic sites in the parser', n1, 30)
     swallowed(pdb, rep, R)
     orders(ctx, pdb, rep, R)
+    pattern_template(pdb, rep)
     seen_transform = set()
     for cname in ctx.cli_configs():
         cdb = ctx.db(cname)
@@ -266,3 +267,28 @@ def orders(ctx, pdb, rep, R):
                     and p not in allowed and not p.startswith(tuple(a + '::' for a in allowed)):
                 bad.append((p.split('::')[-1], t['f'].get('name'), t['line']))
     rep.ob('C19.order', 'stream-order', not bad, f'reordering calls outside segment sorting / page grouping: {bad}', '', 'parser')
+
+
+def pattern_template(pdb, rep):
+    """The line-selection regex of extract_annotations is assembled by format! from a literal template. Stone writes
+    annotations as `<direction>: <path>: <description>(<value>)`: the template must terminate the substituted path with
+    ": " (otherwise `.../Layer 1` also selects `.../Layer 10`), must open with the P->V direction tag and must capture the
+    parenthesised value after the kind."""
+    fn = pdb.fns.get('swiftness_proof_parser::annotations::extract::extract_annotations')
+    if fn is None or fn.hir is None:
+        rep.fail_closed('C19.select', 'extract_annotations not found')
+        return
+    templ = None
+    for n in H.walk(fn.hir['value']):
+        if n[0] == 'lit' and isinstance(n[1], dict) and 'bytes' in n[1] and '/cpu air/' in n[1]['bytes']:
+            templ = n[1]['bytes']
+    if templ is None:
+        rep.undecided.append('C19.select: format template of the annotation regex not found as a literal; not decided')
+        return
+    pieces = [x for x in re.split('\x01+', templ) if x]
+    # pieces: [before {prefix}, between {prefix} and {kind}, after {kind}]
+    ok = len(pieces) == 3 and pieces[0].endswith('/cpu air/') and 'P->V' in pieces[0] and pieces[1].startswith(': ') \
+        and pieces[2].startswith('\\(') and '(' in pieces[2][2:]
+    rep.ob('C19.select', 'path-terminated', ok,
+           f'annotation regex template pieces {pieces}: the substituted path must be followed by ": " and the kind by a captured "(...)"',
+           fn.loc(), 'parser')
